@@ -812,10 +812,22 @@ func (h *harness) judge(c caseID) {
 		rec.Count(k, v)
 	}
 	seenKey := map[string]bool{}
+	hasAdd := false
+	for _, n := range c.Program {
+		if n == "layer-add" {
+			hasAdd = true
+		}
+	}
 	for _, f := range append(append([]finding{}, o1.findings...), o2.findings...) {
-		if !seenKey[f.key] {
-			seenKey[f.key] = true
-			report(f.key, f.msg)
+		key := f.key
+		// the recorded finding about an added layer that a later step leaves alone is a class of
+		// programs, not of symptoms: the same symptom from a program without layer-add is another defect
+		if hasAdd && (key == "diffid-mismatch layer-is-empty-blob" || key == "descriptor-without-mediatype layer") {
+			key += " after-layer-add"
+		}
+		if !seenKey[key] {
+			seenKey[key] = true
+			report(key, f.msg)
 		}
 	}
 	if h.verbose {
